@@ -7,7 +7,15 @@ import KrakenModel.Proof.C18
   lib/torrent/scheduler and lib/torrent/scheduler/dispatch.  "Dropping" = idle preemption by the
   tick; "cancelling" = the RemoveTorrent API on an in-progress download.  Every theorem quantifies
   over all configurations (limits, piece counts), all histories `ops` of any length over any number
-  of torrents, and all torrents `h`.
+  of torrents, and all torrents `h`.  Histories range over download requests, connecting peers
+  (controls without a local request), piece serves (reader closed with or without error, or payload
+  lost because the connection is gone), piece writes, clock advances, ticks, RemoveTorrent, the
+  completion notice, the store evicting a cached blob (incl. the eviction branch of newTorrentEvent
+  that follows) and `other` (every remaining scheduler event).
+
+  "Served" means: the dispatcher answered a peer's piece request with a payload and the payload's
+  reader was closed without error — which conn.sendPiecePayload does whether or not the bytes reached
+  the peer (egress limit refused, socket error); see the level note.
 -/
 namespace KrakenModel.Spec.C18
 open KrakenModel.TorrentIdle KrakenModel.Proof.C18
@@ -79,27 +87,63 @@ theorem incomplete_removal_deletes_partial (cfg : Cfg) (ops : List Op) (o : Op) 
   removal_deletes_partial cfg (run cfg ops) o h hd.1 hc hd.2
 
 /-- **C18 (5)** Dropping a completed torrent as idle deletes nothing: the files of the torrent are
-untouched, and the cached blob is still there afterwards. -/
+untouched (so a blob that is in the cache is still there afterwards). -/
 theorem complete_idle_drop_keeps_blob (cfg : Cfg) (ops : List Op) (h : Hash)
     (hc : ((run cfg ops).tors h).complete = true) (hd : DroppedBy cfg (run cfg ops) .tick h) :
     let t := (run cfg ops).tors h
     let t' := (next cfg (run cfg ops) .tick).tors h
-    t'.cached = true ∧ t'.dl = t.dl ∧ t'.pieces = t.pieces := by
+    t'.cached = t.cached ∧ t'.dl = t.dl ∧ t'.pieces = t.pieces := by
   intro t t'
   have hg := run_good cfg ops h
   exact idle_drop_keeps cfg _ t hg hd.1 hc
 
-/-- **C18 (6)** No operation other than the RemoveTorrent API on that very torrent ever deletes a
-cached blob — in particular no tick, whatever the clock. -/
-theorem cached_blob_survives (cfg : Cfg) (ops : List Op) (o : Op) (h : Hash) (ho : o ≠ .rm h)
+/-- **C18 (6)** No operation of the scheduler ever deletes a cached blob, except the RemoveTorrent API on
+that very torrent — in particular no tick, whatever the clock, no shutdown, no eviction branch.
+(`evict h` is the store's own cleanup, not the scheduler.) -/
+theorem cached_blob_survives (cfg : Cfg) (ops : List Op) (o : Op) (h : Hash) (ho : o ≠ .rm h) (he : o ≠ .evict h)
     (hc : ((run cfg ops).tors h).cached = true) :
     ((next cfg (run cfg ops) o).tors h).cached = true :=
-  cached_survives cfg (run cfg ops) o h (run_good cfg ops h) ho hc
+  cached_survives cfg (run cfg ops) o h (run_good cfg ops h) ho he hc
 
 /-- **C18 (7)** The scheduler lets go of a torrent only through a tick or RemoveTorrent. -/
 theorem dropped_only_by_tick_or_rm (cfg : Cfg) (ops : List Op) (o : Op) (h : Hash)
     (hd : DroppedBy cfg (run cfg ops) o h) : o = .tick ∨ o = .rm h :=
   drop_only_tick_rm cfg (run cfg ops) o h hd.1 hd.2
+
+/-- **C18 (8)** A held torrent's control is replaced by a new one (its creation time changes) only by a
+download request that finds the control of an evicted blob — the eviction branch of newTorrentEvent.
+Together with (7): no other event (peers connecting, shutdown, announce events, closed connections, …)
+drops or replaces a control. -/
+theorem control_replaced_only_after_eviction (cfg : Cfg) (ops : List Op) (o : Op) (h : Hash)
+    (hp : ((run cfg ops).tors h).present = true)
+    (hr : ((next cfg (run cfg ops) o).tors h).created ≠ ((run cfg ops).tors h).created) :
+    ∃ k, o = .new h k ∧ ((run cfg ops).tors h).complete = true ∧ ((run cfg ops).tors h).cached = false := by
+  rw [created_step] at hr
+  by_cases hcb : createsB cfg (run cfg ops) o h = true
+  · cases o <;> simp only [createsB, Bool.false_eq_true] at hcb
+    case new h' k =>
+      simp [hp] at hcb
+      exact ⟨k, by rw [hcb.1], hcb.2.1.1, hcb.2.1.2⟩
+    case peer h' k => simp [hp] at hcb
+  · simp [hcb] at hr
+
+/-- **C18 (9)** The eviction branch deletes nothing that was there: the old control was complete, its blob
+already gone; afterwards the torrent is held again, in progress, over the new download file. -/
+theorem eviction_branch_restarts (cfg : Cfg) (ops : List Op) (h : Hash) (k : Nat)
+    (hp : ((run cfg ops).tors h).present = true) (hc : ((run cfg ops).tors h).complete = true)
+    (hca : ((run cfg ops).tors h).cached = false) (hk : k < cfg.numPieces) :
+    let t' := (next cfg (run cfg ops) (.new h k)).tors h
+    t'.present = true ∧ t'.complete = false ∧ t'.dl = true ∧ t'.created = (run cfg ops).now := by
+  have hk' : ¬ cfg.numPieces ≤ k := by omega
+  simp [next, step, upd_same, newTor, createTor, hp, hc, hca, hk']
+
+/-- **C18 (10)** The creation time used by (3) is observable history: it is the time of the last operation
+that created a control for `h` — a request or connecting peer that found none, or a request that found
+the control of an evicted blob. -/
+theorem created_is_history (cfg : Cfg) (ops : List Op) (h : Hash) :
+    ((run cfg ops).tors h).created = createdHist cfg h init ops 0 := by
+  have := created_runFrom cfg h ops init
+  simpa [run, init] using this
 
 -- Non-vacuity. Limits 10 (seeder) / 12 (leecher), 2 pieces.
 private def c : Cfg := { seederTTI := 10, leecherTTI := 12, numPieces := 2 }
@@ -122,7 +166,47 @@ example : ((run c [.new 0 0, .adv 11, .write 0 0 true, .adv 12, .tick]).tors 0).
 -- idle seeder by a tick that comes before its completion event — the finished blob stays in the cache
 example : DroppedBy c (run c [.new 0 1, .adv 11, .write 0 1 true]) .tick 0 := by decide
 example : ((run c [.new 0 1, .adv 11, .write 0 1 true, .tick, .notice 0]).tors 0).cached = true := by decide
+-- a control created by a connecting peer (no local request) over a partial file is dropped as an idle leecher,
+-- and its partial file is deleted
+example : ((run c [.peer 0 1]).tors 0).dl = true := by decide
+example : DroppedBy c (run c [.peer 0 1, .adv 12]) .tick 0 := by decide
+example : ((run c [.peer 0 1, .adv 12, .tick]).tors 0).dl = false := by decide
+-- eviction: the blob of a seeding torrent is evicted; the next request restarts the download at t=5
+example : ((run c [.new 0 2, .adv 5, .evict 0, .new 0 0]).tors 0).complete = false := by decide
+example : createdHist c 0 init [.new 0 2, .adv 5, .evict 0, .new 0 0] 0 = 5 := by decide
+-- a payload that cannot be handed to the connection is not activity
+example : DroppedBy c (run c [.new 0 2, .adv 9, .lost 0 1, .adv 1]) .tick 0 := by decide
 -- a corrupted piece is not activity
 example : DroppedBy c (run c [.new 0 0, .adv 11, .write 0 0 false, .adv 1]) .tick 0 := by decide
+
+/- Below the event granularity (known finding idle-drop-deleted-completed-blob). `removeTorrent` is not one
+   step with respect to the dispatcher's goroutine: it tests `!Complete()` (`dropDecided`), and later calls
+   `DeleteTorrent`, which deletes the file from whichever directory holds it (`dropFinish`). A piece write that
+   completes the blob in between is not noticed. -/
+
+/-- first half of the idle drop of an in-progress torrent: the decision -/
+def dropDecided (cfg : Cfg) (now : Nat) (t : Tor) : Bool := t.present && idleLeecher cfg now t
+
+/-- second half: the control is forgotten and `DeleteTorrent` removes the file wherever it is -/
+def dropFinish (t : Tor) : Tor := { t with present := false, dl := false, cached := false, pieces := [] }
+
+/-- with no write in between, the two halves are the tick's step -/
+theorem drop_halves_are_tick (cfg : Cfg) (now : Nat) (t : Tor) (hc : t.complete = false)
+    (hd : dropDecided cfg now t = true) : tickTor cfg now t = dropFinish t := by
+  simp only [dropDecided, Bool.and_eq_true] at hd
+  simp [tickTor, removeTor, dropFinish, hd.1, hd.2, hc]
+
+/-- **Refuted target (real code, known finding).** "An idle drop never deletes a completed blob" fails when the
+last piece is written between the two halves: in a reachable state the drop of an idle download is decided, the
+write then completes the blob (it is in the cache), and the second half deletes it. -/
+theorem not_idle_drop_keeps_blob_under_racing_write :
+    ¬ (∀ (cfg : Cfg) (ops : List Op) (h : Hash) (i : Nat),
+        let s := run cfg ops
+        dropDecided cfg s.now (s.tors h) = true →
+        ((writeTor cfg s.now (s.tors h) i true).1).cached = true →
+        (dropFinish (writeTor cfg s.now (s.tors h) i true).1).cached = true) := by
+  intro hall
+  have := hall c [.new 0 1, .adv 12] 0 1 (by decide) (by decide)
+  simp [dropFinish] at this
 
 end KrakenModel.Spec.C18
